@@ -13,6 +13,7 @@ the model's whole run is a function of the finite prefix of variates it reads.
 -/
 import PanqecVerif.Proofs.Sim
 import PanqecVerif.Proofs.SimDist
+import PanqecVerif.Proofs.SimGrid
 
 namespace Panqec.C11
 
@@ -203,6 +204,29 @@ theorem direct_simulation_calibrated (dt : DType) (c : CodeMats) (probs : List Q
   congr 1
   funext e
   cases (classify dt c e dec).success <;> simp
+
+/-- deterministic calibration: when every single-qubit probability is a multiple of `1/M`,
+    drawing one error per point of the complete variate grid `{0, 1/M, …, (M-1)/M}^n` with
+    `fast_choice` gives a failure fraction that EQUALS the exact failure probability (no
+    statistical error): this is the equality the harness checks on `DirectSimulation` -/
+theorem grid_run_failure_fraction_is_exact (dt : DType) (c : CodeMats) (probs : List QubitProbs)
+    (dec : List Nat → List Nat) (M : Nat) (hM : 0 < M) (hgrid : ∀ q ∈ probs, OnGrid M q) :
+    ((gridPaulis M probs).map fun ps => failInd dt c dec (pauliToBsf ps)).sum /
+        ((gridPaulis M probs).length : Rat) = exactFailProb dt c probs dec := by
+  rw [grid_realises_channel M hM _ probs hgrid, gridPaulis_length]
+  unfold exactFailProb channel
+  rw [expect_map]
+  have hM' : ((M ^ probs.length : Nat) : Rat) ≠ 0 := by
+    exact_mod_cast (Nat.pos_iff_ne_zero.mp (Nat.pow_pos hM))
+  push_cast at hM' ⊢
+  exact mul_div_cancel_left₀ _ hM'
+
+/-- what the grid does on one qubit: `fast_choice` at `j/M` compares `j` with the cumulative
+    counts, strictly (a `<=` in `fast_choice` would shift every boundary point) -/
+theorem fast_choice_on_grid (a b c d j M : Nat) (hM : 0 < M) :
+    samplePauli (gridProbs a b c d M) ((j : Rat) / M) =
+      if j < a then Pauli.I else if j < a + b then Pauli.X else if j < a + b + c then Pauli.Y
+      else Pauli.Z := samplePauli_grid a b c d j M hM
 
 /-! ### non-vacuity: concrete instances -/
 
